@@ -216,4 +216,31 @@ void *simk_memset(void *d, int c, size_t n) {
   return memset(d, c, n);
 }
 
+// libc string operations called by the library (flavour T only): same effect, plus range reports, so that static or shared
+// strings handled through them (a cache, a name buffer) are seen by the race detector like any other memory
+size_t simk_strlen(const char *a) { size_t n = strlen(a); if (active()) hb::plain_read(a, n + 1); return n; }
+int simk_strcmp(const char *a, const char *b) {
+  if (active()) { size_t i = 0; while (a[i] && a[i] == b[i]) i++; hb::plain_read(a, i + 1); hb::plain_read(b, i + 1); }
+  return strcmp(a, b);
+}
+int simk_strncmp(const char *a, const char *b, size_t n) {
+  if (active() && n) { size_t i = 0; while (i + 1 < n && a[i] && a[i] == b[i]) i++; hb::plain_read(a, i + 1); hb::plain_read(b, i + 1); }
+  return strncmp(a, b, n);
+}
+int simk_memcmp(const void *a, const void *b, size_t n) { if (active() && n) { hb::plain_read(a, n); hb::plain_read(b, n); } return memcmp(a, b, n); }
+char *simk_strcpy(char *d, const char *s2) { size_t n = strlen(s2) + 1; if (active()) { hb::plain_read(s2, n); hb::plain_write(d, n); } return strcpy(d, s2); }
+char *simk_stpcpy(char *d, const char *s2) { size_t n = strlen(s2) + 1; if (active()) { hb::plain_read(s2, n); hb::plain_write(d, n); } return stpcpy(d, s2); }
+char *simk_strncpy(char *d, const char *s2, size_t n) { if (active() && n) { hb::plain_read(s2, strnlen(s2, n - 1) + 1); hb::plain_write(d, n); } return strncpy(d, s2, n); }
+char *simk_strcat(char *d, const char *s2) {
+  size_t dl = strlen(d), n = strlen(s2) + 1;
+  if (active()) { hb::plain_read(d, dl + 1); hb::plain_read(s2, n); hb::plain_write(d + dl, n); }
+  return strcat(d, s2);
+}
+char *simk_strncat(char *d, const char *s2, size_t n) {
+  size_t dl = strlen(d), sl = strnlen(s2, n);
+  if (active()) { hb::plain_read(d, dl + 1); if (sl) hb::plain_read(s2, sl); hb::plain_write(d + dl, sl + 1); }
+  return strncat(d, s2, n);
+}
+char *simk_strchr(const char *a, int c) { char *r = (char *)strchr(a, c); if (active()) hb::plain_read(a, r ? (size_t)(r - a) + 1 : strlen(a) + 1); return r; }
+
 }  // extern "C"
